@@ -166,14 +166,15 @@ def _transcription(ctx):
             ok_all, why = False, "returns %s, not the signer's result" % show(p.value)[:60]
             break
         muts = [ev for ev in evs if ev[0] in ("store", "del", "mutcall") and _root(ev[2]) == res]
-        dels = [ev for ev in muts if ev[0] == "del"]
+        removed = [ev[2] for ev in muts if ev[0] == "del"] + [Sub(ev[2], ev[4][0]) for ev in muts if ev[0] == "mutcall" and ev[3] == "pop" and ev[2] == res and ev[4]]
         stores = [ev for ev in muts if ev[0] == "store"]
-        others = [ev for ev in muts if ev[0] == "mutcall"]
-        if [ev[2] for ev in dels] != [Sub(res, C("keyid"))] or others:
+        others = [ev for ev in muts if ev[0] == "mutcall" and not (ev[3] == "pop" and ev[2] == res)]
+        if removed != [Sub(res, C("keyid"))] or others:
             ok_all, why = False, "does not remove exactly the 'keyid' field from the signer's result"
             break
+        keyid_values = (Sub(res, C("keyid")), CallT("method:pop", [res, C("keyid")]))
         for ev in stores:
-            if not (ev[2] == Sub(res, C("see_also")) and ev[3] == Sub(res, C("keyid"))):
+            if not (ev[2] == Sub(res, C("see_also")) and ev[3] in keyid_values):
                 ok_all, why = False, "adds a field other than see_also := keyid (%s)" % show(ev[2])[:60]
                 break
         fields = {"other_headers", "signature"} | ({"see_also"} if stores else set())
